@@ -10,7 +10,7 @@ WEIGHTS = dict(SetPlatform=10, SetPortNr=1, SetProtocolNr=1, Resequence=1, Group
 
 def run(tier, seed):
     rng = random.Random(seed * 179424673 + 2)
-    mcs = [core.mc("MC_Acl", "MC_Acl" if tier == "quick" else "MC_Acl_4")]
+    mcs = [core.mc("MC_Acl", "MC_Acl" if tier == "quick" else "MC_Acl_4"), core.mc("MC_Acl", "MC_Acl_deep")]
     n = 1000 if tier == "quick" else 12000
     jobs = [aclhist.make_history(rng, t, WEIGHTS, nops=rng.randint(2, 6)) for t in range(1, n + 1)]
     aclhist.fill_permutations(rng, jobs)
